@@ -8,7 +8,7 @@ BASE_CONSTS = dict(
     Fut=50, ExpSet={0, 1, 3, 4, 50}, ConflictCarriesValue=True,
     FaultKinds=set(), FaultBudget=0,
     Watchers=set(), WatchStarts={0}, WatchPrefixes={0}, PrefixOf="<- MCPrefixOf",
-    CacheSize=2, SubCap=2, SeqDetail=False,
+    CacheSize=2, SubCap=2, SeqDetail=False, TsoDetail=False,
     Readers=set(), ReadRevs={0}, MaxReads=0, SnapAtTs=False, Compactors=set(), CompactRevs=set(), MaxCompacts=0, DelFaults=set(), CompactDetail=False,
     EagerSeq=False, FixedOps="<- MCNoFixedOps", LazyWatchers=set(), AtomicWrites=False, GenHist=False,
 )
@@ -20,9 +20,9 @@ MC_INV = {
 }
 T_MON = {
     "C01": ["M_CommitAtomic", "M_WriteCondition", "M_WriteValue", "M_PerKeyIncreasing", "M_FailedOnlyIfDiffered",
-            "M_FailedLeavesKey", "M_SuccessMeansWritten", "M_DeleteReturnsPrev", "M_IndexAgrees"],
-    "C02": ["M_UniqueRevision", "M_RealTimeOrder", "M_PerKeyIncreasing", "M_HeaderCoversData"],
-    "C04": ["M_NoOvertake", "M_CommittedMonotone", "M_CommittedWasReported", "M_Resolved", "M_ReadIsSnapshot", "M_HeaderCoversData"],
+            "M_FailedLeavesKey", "M_SuccessMeansWritten", "M_DeleteReturnsPrev", "M_IndexAgrees", "M_NoPanic"],
+    "C02": ["M_UniqueRevision", "M_RealTimeOrder", "M_PerKeyIncreasing", "M_HeaderCoversData", "M_NoPanic"],
+    "C04": ["M_NoOvertake", "M_CommittedMonotone", "M_CommittedWasReported", "M_Resolved", "M_ReadIsSnapshot", "M_HeaderCoversData", "M_NoPanic"],
 }
 
 
@@ -70,6 +70,41 @@ def run_mc(work, consts, invariants, timeout=3000, module="MC_Write.tla", name="
     if not r.get("ok"):
         raise Undecided("TLC did not finish (rc=%s): %s\n%s" % (r["rc"], r["error"], r["tail"][-2000:]))
     return r
+
+
+def race_part(work, binp, cov, quick, seed):
+    """C01's premise on every engine: conditional batches committed in parallel are atomic (StorageRace.tla).
+    Returns a violation dict or None."""
+    import fam_comp
+    consts = dict(KeyPos={2, 4}, Vals={"a", "b"}, AtomicCommit=True, GenHist=False)
+    r = tlc(work, "StorageRace.tla", fam_comp.simple_cfg(consts, ["Serializable"], view=False), timeout=900, name="mcrace")
+    if r["violated"] or not r.get("ok"):
+        raise Undecided("TLC on StorageRace.tla: %s %s" % (r["violated"], r["error"]))
+    cov["states"] += r["distinct"]; cov["transitions"] += r["states"]
+    cov["mc_runs"].append(dict(module="StorageRace.tla", config="2 clients, one operation each over 2 keys, every initial contents; commit atomic",
+                               distinct_states=r["distinct"], states_generated=r["states"], invariants=["Serializable"]))
+    rn = tlc(work, "StorageRace.tla", fam_comp.simple_cfg(dict(consts, AtomicCommit=False), ["Serializable"], view=False), timeout=900, name="mcrace2")
+    cov["mc_runs"].append(dict(module="StorageRace.tla", config="same, conditions evaluated when the operation is added (what an adapter must not do)",
+                               counterexample_found=bool(rn["violated"])))
+    g = tlc(work, "StorageRace.tla", fam_comp.simple_cfg(dict(consts, GenHist=True), ["Dump"], view=False, init="GenInit", nxt="GenNext"),
+            workers=1, timeout=900, name="genrace")
+    cases = parse_behaviours(g["outfile"])
+    if not cases:
+        raise Undecided("no race cases generated")
+    rnd = random.Random(seed)
+    same = [c for c in cases if json.loads(c)["a"]["k"] == json.loads(c)["b"]["k"]]
+    pick = same if not quick else rnd.sample(same, min(len(same), 600))
+    traces = []
+    for engines, reps, shards in (("memkv,metrics", 40 if quick else 200, 8), ("badger,tikv", 4 if quick else 20, 8)):
+        rep, trs, _ = fam_comp.run_driver(work, binp, "storerace", pick, engines, shards, ["-reps", str(reps)], name="race_" + engines.split(",")[0])
+        cov["evaluations"] += rep.get("behaviours", 0); cov["distinct_nontrivial"] += rep.get("nontrivial", 0)
+        cov["replay"].append(dict(what="two conditional batches on one key committed in parallel on the bare adapter", engines=engines,
+                                  cases=rep.get("behaviours", 0), rounds_per_case=reps))
+        log("storerace %s: %d cases x %d rounds" % (engines, rep.get("behaviours", 0), reps))
+        traces += trs
+    ntr, v = validate_all(work, traces, ["M_BatchesSerializable"], module="TraceStorage.tla", chunks=8)
+    cov["traces_validated_against_impl"] += ntr
+    return v
 
 
 # reader processes of the concurrent model (RInvoke / RCheck / RIter) next to a writer and the stepwise compactor
@@ -153,6 +188,13 @@ def check_write(prop, tier, seed):
         plans.append(("badger", dict(BASE_CONSTS), "simulate", nsim // 8, 4, []))
         plans.append(("tikv", dict(BASE_CONSTS, ConflictCarriesValue=False), "simulate", nsim // 4, 8, []))
         plans.append(("metrics", dict(BASE_CONSTS), "simulate", nsim // 8, 4, []))
+        if prop == "C02":
+            # the revision counter: tso.Commit in two steps, so that a Deal can land between its load and its compare-and-swap
+            tso = dict(BASE_CONSTS, SeqDetail=True, TsoDetail=True, InitStates={"none", "live"}, ExpSet={0, 1, 4})
+            r = run_mc(work, tso, MC_INV[prop] + ["Chain", "Resolved"], name="mctso")
+            cov["states"] += r["distinct"]; cov["transitions"] += r["states"]
+            cov["mc_runs"].append(dict(config="2 writers, 1 key, tso.Commit in two steps", distinct_states=r["distinct"], states_generated=r["states"], invariants=MC_INV[prop]))
+            plans.append(("memkv", dict(tso, OpsPer=2), "simulate", nsim // 2, 16, ["-tsodetail"]))
         if prop == "C04":
             # "for every mix of outcomes": storage errors and unknown outcomes on any commit, also on the repair write
             plans.append(("memkv", dict(BASE_CONSTS, InitStates={"none", "live", "deleted"}, ExpSet={0, 1, 4},
@@ -177,8 +219,8 @@ def check_write(prop, tier, seed):
             log("replay %s/%s: %d behaviours, agreed %d, diverged %d, observable mismatch %d" % (
                 engine, mode, rep.get("behaviours", 0), rep.get("agreed", 0), rep.get("diverged", 0), rep.get("obs_mismatch", 0)))
             alltraces += traces
-        if prop == "C04":
-            # "reads never overtake a write": reads in flight as processes of the model
+        if prop in ("C02", "C04"):
+            # "reads never overtake a write" / "a header never stays behind its data": reads in flight as processes of the model
             alltraces += reader_part(work, binp, cov, tier == "quick", seed)
         # ---- 3. free-running concurrent executions of the real backend, recorded
         fr = free_run(work, binp, seed, tier)
@@ -190,6 +232,11 @@ def check_write(prop, tier, seed):
         if v:
             violations += 1
             report_violation(prop, seed, v)
+        elif prop == "C01":
+            v2 = race_part(work, binp, cov, tier == "quick", seed)
+            if v2:
+                violations += 1
+                report_violation(prop, seed, v2)
         cov["rule"] = ("behaviours = complete schedules of spec/KubeBrain.tla (TLC simulation / exhaustive), each replayed gate by gate "
                        "on the real backend; non-trivial = two client processes with overlapping lifetimes or a repair step; distinct by schedule text")
         cov["monitors"] = T_MON[prop]
